@@ -57,7 +57,7 @@ def run(prop, tier, seed=0, extra=None):
             not_covered.append(msg)
             # out of wall budget: the shape is reported as not covered (evidence + NOTE line), the verdict is about everything explored;
             # anything else (unsupported construct, executor error) leaves the check inconclusive
-            if r.get('reason', '').startswith('Budget'): notes.append(msg)
+            if r.get('reason', '').startswith('Budget'): notes.append('not covered (wall budget): ' + msg)
             else: inconclusive.append(msg)
     n_valid, mism, nat = runner.validate_native(templates, results, features=feats)
     bad_records = set()
@@ -85,7 +85,7 @@ def run(prop, tier, seed=0, extra=None):
         base = [t for t in templates if t.name in qn and not any(op[0] in ('ematch', 'mmatch', 'rewrite', 'extract') for op in t.ops)]      # the quick catalogue (the large thorough shapes exceed the budget under the checks build)
         r2 = runner.explore_all(base, features=('checks',), hash_orders=('ins',), budget_paths=5000, budget_s=1500)
         for (tn, ho), r in sorted(r2.items()):
-            if r.get('status') != 'ok': (notes if r.get('reason', '').startswith('Budget') else inconclusive).append('checks build, template %s: %s' % (tn, r.get('reason', '?')[:300]))
+            if r.get('status') != 'ok': (notes if r.get('reason', '').startswith('Budget') else inconclusive).append('not covered (wall budget): checks build, template %s: %s' % (tn, r.get('reason', '?')[:300]))
         nv2, mism2, _ = runner.validate_native(base, r2, features=('checks',))
         for cid, d in mism2[:3]: inconclusive.append('checks build: symbolic record %s disagrees with the native run: %s' % (cid, json.dumps(d, default=str)[:300]))
         bad2 = {tuple(cid.split('|')[:1]) for cid, d in mism2}
@@ -177,6 +177,18 @@ def run(prop, tier, seed=0, extra=None):
                             else: key = '%s:order_dependent:%s' % (other.name, d[0])
                             report(f, key, 'history [%s] and its reordering [%s] disagree on %s for names %s' % (base_t.describe(), other.describe(), d, rec['values']))
                         break
+    selftest = None
+    if prop == 'C07':
+        # vacuity guard for the proof checker: mutants of every accepted proof (flipped query / leaf, other justification, exchanged premises, relabelled step) must be rejected
+        from mirsmt import proofcheck
+        g = r_ = 0; acc = []
+        for (tn, ho, pi, pat), rec in rec_index.items():
+            for k, st in enumerate(rec['steps']):
+                if st.get('explain'):
+                    a, b, c = proofcheck.self_test(st['explain'], judge.explain_query(tmap[tn], list(pat), k), judge.asserted_equations(tmap[tn], list(pat), k))
+                    g += a; r_ += b; acc += ['%s step %d: %s' % (tn, k, x) for x in c]
+        selftest = {'proof_mutants_generated': g, 'proof_mutants_rejected': r_, 'accepted_mutants': sorted(set(acc))[:20]}
+        if g and r_ < g: notes.append('proof checker self test: %d of %d mutants accepted: %s' % (g - r_, g, sorted(set(acc))[:5]))
     # ---- evidence
     paths = sum(r['stats'].get('paths', 0) for r in results.values() if r.get('status') == 'ok')
     branches = sum(r['stats'].get('branches', 0) for r in results.values() if r.get('status') == 'ok')
@@ -201,6 +213,7 @@ def run(prop, tier, seed=0, extra=None):
            'bounds': 'template shapes listed under samples; every slot name a free 32-bit value (fresh-class names below the start counter %d, interned names below %d, unused residue class excluded); default build; SmallVec model capacity as declared' % (F0_DEFAULT, NAMED_MAX),
            'templates_not_covered': not_covered, 'mir_hash': next(iter(results.values())).get('mir_hash'), 'cache_hits': sum(1 for r in results.values() if r.get('cache_hit')),
            'known_findings_hit': sorted(known_hits), 'checks_feature_build': checks_build, 'exhaustive': False}
+    if selftest: cov['proof_checker_self_test'] = selftest
     assumptions = ['library models of mirsmt/models.py (containers as sequences / association lists; iteration order of hash containers = insertion order, also reversed%s)' % ('' if tier == 'quick' else ' and rotated'),
                    ('oracle: exhaustive evaluation of every dumped e-graph in the finite model GF(3) with summation and let binders (mirsmt/model_eval.py): every environment of every class, not a sample' if prop == 'C03' else
                     'oracle: brute-force ground congruence closure over a pool of (#names + 3) names (mirsmt/oracle.py)'),
